@@ -38,6 +38,9 @@ def pick_carriers(case, rng):
     carrier = rng.choice(SAFE_CARRIERS + (["nd_f4"] * 2 if fn in ("gross", "valid", "climatology") and f32_exact(case) else []))
     if fn == "valid":
         carrier = "nd_f8"            # valid_range_test takes numpy arrays (Series: see C15)
+        if not case.get("as_time") and case["inp"] and all(v is not None and F(v).denominator == 1 for v in case["inp"]) \
+                and rng.random() < 0.6:
+            carrier = "nd_i8"        # ... of any real dtype: whole-number data as int64
     if fn == "pressure":
         carrier = rng.choice(["nd_f8", "list_nan"])
     tc = rng.choice(SAFE_TCARRIERS)
